@@ -64,7 +64,8 @@ def to_real(d):
     if 'filename' in d and isinstance(d['filename'], list):
         d['filename'] = p(d['filename'])
     if d.get('type') not in ('build_file', 'subbuild'):
-        if isinstance(d.get('args'), list) and d['args'] and isinstance(d['args'][0], list):
+        if (isinstance(d.get('args'), list) and d['args'] and isinstance(d['args'][0], list)
+                and all(isinstance(c, str) for c in d['args'][0])):
             d['args'] = [p(d['args'][0])] + d['args'][1:]
     if isinstance(d.get('suboperations'), list):
         d['suboperations'] = [to_real(x) for x in d['suboperations']]
@@ -78,7 +79,7 @@ def from_real(d):
     d = dict(d)
     if 'filename' in d:
         d['filename'] = q(d['filename'])
-    if d.get('type') not in ('build_file', 'subbuild'):
+    if d.get('type') not in ('build_file', 'subbuild') and d.get('args') and isinstance(d['args'][0], str):
         d['args'] = [q(d['args'][0])] + list(d['args'][1:])
     if 'suboperations' in d:
         d['suboperations'] = [from_real(x) for x in d['suboperations']]
